@@ -137,6 +137,7 @@ def run(ctx):
             ctx.count("precondition_excluded_disconnected_plaquette_graph"); continue
         ctx.count("family:" + fam)
         lat = zoo.lat_to_json(l)
+        lat_fp = core.lattice_fingerprint(l)
         closed = bool(np.all(l.edges.adjacent_plaquettes != INVALID)) and sum(p.n_sides for p in l.plaquettes) == 2 * l.n_edges
         for shortest in (False, True):
             rep = lambda what, **kw: ctx.impl_violation(f"{name} [shortest={shortest}]: {what}",
@@ -189,6 +190,8 @@ def run(ctx):
                             ctx.count("closed_lattices_parity_class_covered")
                             if len(sectors) != 2 ** (F - 1):
                                 rep("the enumeration does not cover the parity class")
+            if core.lattice_fingerprint(l) != lat_fp:
+                rep("plaquette_spanning_tree / n_to_ujk_flipped modified the lattice it was given")
             for bi, u in enumerate(bases if shortest else bases[:1]):
                 reqs.append(dict(op="tree", orders=orders if shortest else [], u=u.tolist(), ns=[n for n in ns], **lat))
                 meta.append((name, l, shortest, tree, bi, ns, flipped))
